@@ -1,6 +1,6 @@
 (** C16 — Keys are validated and confined to the cache directory. *)
 From Coq Require Import List NArith String Ascii Bool.
-From Kismet Require Import Gen.Constants Gen.Agree Pure.Pinned Pure.Hash Proofs.HashProofs.
+From Kismet Require Import Proofs.PoolLift Gen.Constants Gen.Agree Pure.Pinned Pure.Hash Proofs.HashProofs.
 Import ListNotations.
 
 (** The validation rule, as read from the current source: non-empty, first
@@ -111,6 +111,24 @@ Theorem C16_confined_get_or_update : forall W extra cfg k j pop,
   cfg_conf W extra cfg -> judge_cf W extra j -> pop_cf W extra pop ->
   forall w o, let '(_, _, _, tr) := run (get_or_update cfg k j pop) w o in confined_trace W extra tr.
 Proof. intros. apply confined_of_allc, cf_get_or_update; auto. Qed.
+
+(** The same inside ANY pool of concurrent participants under ANY schedule, at
+    any point of the execution (interference is just another environment). *)
+Theorem C16_confined_in_any_pool : forall W extra cfg k v, cfg_conf W extra cfg -> allowed_path W extra v = true ->
+  Proofs.PoolLift.class_in_any_pool (conf W extra) (cache_set cfg k v) /\
+  Proofs.PoolLift.class_in_any_pool (conf W extra) (cache_put cfg k v) /\
+  Proofs.PoolLift.class_in_any_pool (conf W extra) (cache_get cfg k).
+Proof.
+  intros. split; [|split]; eapply Proofs.PoolLift.allc_pool;
+    [apply cf_cache_set|apply cf_cache_put|apply cf_cache_get]; auto.
+Qed.
+Theorem C16_reject_in_any_pool : forall roots cfg k src, valid_name (k_name k) = false -> under roots src = false ->
+  Proofs.PoolLift.class_in_any_pool (away roots) (cache_set cfg k src) /\
+  Proofs.PoolLift.class_in_any_pool (away roots) (cache_put cfg k src).
+Proof.
+  intros roots cfg k src Hbad Hsrc. split; eapply Proofs.PoolLift.allc_pool;
+    [exact (rej_cache_set roots (k_name k) Hbad k eq_refl cfg src Hsrc)|exact (rej_cache_put roots (k_name k) Hbad k eq_refl cfg src Hsrc)].
+Qed.
 
 (** The key path itself: directly inside the directory, under the validated
     name (one segment, no separator). *)
